@@ -49,12 +49,17 @@ META = dict(
                 'than the bytes consumed, or with one of the five archive exceptions; load(save v) = v ending exactly at the end, also '
                 'embedded in a larger archive; every strict truncation of a valid archive is rejected; a length field that over-runs '
                 'the rest of the archive is rejected by the chunk reader and by every loader that meets it; a successful load is '
-                'unchanged by appended data. The three comparisons of archive::next_chunk_size/read_chunk are regenerated from the '
-                'current source text and proved equal to the model (Link.v) when the translator succeeds; everything else is tied '
+                'unchanged by appended data. Session map format (session_interface save_data/load_data, which carries every object '
+                'stored with store_data): load_data(save_data m) = m, the rebuilt map equals m for distinct keys, load_data of arbitrary '
+                'bytes returns records that tile the buffer exactly or throws, never reads outside. The comparisons and pointer updates '
+                'of archive::eof/next_chunk_size/read_chunk/read_chunk_as_string/write_chunk and the limits, bit-field widths and bounds '
+                'tests of the session format are cut from the current source text, translated by cxx2v and proved equal to the model '
+                '(Link.v: chunk reader and load_data assembled from the generated leafs = the model); everything else is tied '
                 'by running the extracted model and the real archive classes (35 concrete C++ types incl. four user classes, also '
                 'through session_interface / cache_interface store_data/fetch_data) on the same inputs.'),
     level_note=('Trusted: Coq kernel + vm_compute; ExtrOcamlBasic extraction; the hand model of archive.cpp / archive_traits.h (tied by '
-                'correspondence on generated cases, not verified against the C++ text, except the bounds comparisons); the JSON parser is '
+                'correspondence on generated cases, not verified against the C++ text, except the leaf expressions named above; the regular-'
+                'expression extraction of those expressions in checks/C19.py; bit-field allocation order of struct packed); the JSON parser is '
                 'a parameter of the model (its verdicts on the chunks met are taken from the real parser, property C11); iteration order '
                 'of sets/maps is canonicalised (sorted) on both sides; std::multiset/multimap and intrusive_ptr '
                 'instantiations share the macro text with the tested ones and are not run; json numbers with more than 16 significant '
@@ -1112,7 +1117,9 @@ def run(ctx):
                        'x86-64: little-endian uint32_t/size_t, sizeof(size_t)=8',
                        'container elements consume at least one chunk (elems_ok): false only for containers of field-less user classes',
                        'round trip of json values: only for texts the parser/writer pair reproduces (json_fix)',
-                       'sets/maps: C++ iteration order is not modelled (compared after sorting the printed elements)']
+                       'sets/maps: C++ iteration order is not modelled (compared after sorting the printed elements)',
+                       'session format: keys beginning with _ (the session own settings _t,_h,_s) are not generated; struct packed bit-fields '
+                       'are allocated from bit 0 upwards (x86-64 System V ABI)']
     wrap = [sys.executable, os.path.abspath(__file__), '--wrap']
     # three independent builds side by side: harness against the library build, harness + src/archive.cpp compiled
     # with AddressSanitizer (its definitions of archive::* take precedence over the library's), extracted model
@@ -1155,7 +1162,10 @@ def run(ctx):
         '(tr; sampled around chunk boundaries above %d bytes), EVERY 4-byte length field replaced by len+-1..4, remaining+-1..4, 0, 2^31, '
         '2^32-1.. (muh), every container count changed (mu), pointer flags changed, single-byte damage, deletions/insertions (ld/scl); '
         'a grid first-header-value x bytes-that-follow for every type; random bytes. Exhaustive: all archives <header 0..10 with 5 '
-        'high-byte variants><0..9 bytes> for 6 types. A case is non-trivial unless its archive is empty; distinct = distinct case lines.'
+        'high-byte variants><0..9 bytes> for 6 types. Session map format: sd = bytes handed to session_interface::load() by a custom storage '
+        'backend (truncations, header mutations, doubled strings, exhaustive small headers, random), ss = entries set/exposed, saved and loaded by '
+        'the next session object (size limits 1023/1024 key bytes, 2^21-1/2^21 value bytes in the thorough tier). '
+        'A case is non-trivial unless its archive is empty; distinct = distinct case lines.'
         % ctx.scale(160, 600))
     ctx.coverage['exhaustive'] = False
     ctx.coverage['exhaustive_parts'] = ['every truncation of every generated archive up to %d bytes' % ctx.scale(160, 600),
